@@ -16,6 +16,8 @@ from ..common import same
 from ..containers import FUNCS
 
 NAN = float("nan")
+MAXMAG = 1e60
+MAXBITS = 220
 
 
 class ModelReject(Exception):
@@ -43,12 +45,32 @@ def _mod(a, b):
         return NAN
 
 
+def _pow(a, b):
+    # same value as a ** b, but refuses (as an arithmetic error -> the op is not generated)
+    # results whose size would make the *model* itself blow up
+    if isinstance(a, int) and isinstance(b, int) and b > 0 and a.bit_length() * b > 4 * MAXBITS:
+        raise OverflowError("model: integer power too large")
+    return a ** b
+
+
+def _mul(a, b):
+    if isinstance(a, (tuple, list)) or isinstance(b, (tuple, list)):
+        raise TypeError("model: sequence repetition is kept out of the workloads")
+    return a * b
+
+
+def _lshift(a, b):
+    if isinstance(b, int) and b > MAXBITS:
+        raise OverflowError("model: shift too large")
+    return a << b
+
+
 # deferred semantics (zero division -> NaN for / // %)
 BINOPS = {
-    "+": operator.add, "-": operator.sub, "*": operator.mul,
-    "/": _truediv, "//": _floordiv, "%": _mod, "**": operator.pow,
+    "+": operator.add, "-": operator.sub, "*": _mul,
+    "/": _truediv, "//": _floordiv, "%": _mod, "**": _pow,
     "&": operator.and_, "|": operator.or_, "^": operator.xor,
-    "<<": operator.lshift, ">>": operator.rshift,
+    "<<": _lshift, ">>": operator.rshift,
     "<": operator.lt, "<=": operator.le, ">": operator.gt, ">=": operator.ge,
     "==": operator.eq, "!=": operator.ne,
 }
@@ -60,8 +82,6 @@ UNOPS = {"-": operator.neg, "+": operator.pos, "~": operator.invert}
 BUILTINS = {"abs": abs, "round": round, "divmod": divmod,
             "floor": math.floor, "ceil": math.ceil, "trunc": math.trunc}
 
-MAXMAG = 1e60
-MAXBITS = 220
 
 
 def prefixes(path):
